@@ -58,6 +58,9 @@ def run(ctx):
     c06.decoder_rule(dep(ctx, "C07", "C06"))
     c06.suffix_rule(dep(ctx, "C07", "C06"))
     c06.accessor_rule(dep(ctx, "C07", "C06"))
+    c06.end_rule(dep(ctx, "C07", "C06"))
+    from . import c15
+    c15.cli_arm_dep(ctx, "C07", ("Ctr",))
 
 
 def worker_closure(fv):
@@ -221,7 +224,31 @@ def take_rule(ctx, fc):
                   "the k-mer loop runs over `%s`, not over the taken record's `seq`" % show(src), line_of(kloops[0]))
 
 
+def counters_rule(ctx, fc):
+    """the atomics the workers share (records taken, k-mer budget) start at zero in every pass"""
+    clo = worker_closure(fc)
+    if clo is None:
+        return
+    n = 0
+    for c in walk(clo):
+        if c.get("k") == "mcall" and "::atomic::Atomic" in cname(c):
+            n += 1
+            t = fc.term(c["recv"])
+            fresh = contains(t, lambda s: s[0] == "call" and s[1].endswith("atomic::Atomic::new") and s[2] == L(0)) \
+                and not contains(t, lambda s: s[0] in ("param", "self", "field"))
+            ctx.check("C07.C", "count_chunk:counter_per_pass@%d" % n, fresh,
+                      "%s on a counter created as zero inside this pass" % cname(c).split("::")[-1],
+                      "a worker's %s acts on `%s`, which is not a counter created at zero by this pass: a budget or record "
+                      "count carried over from the previous pass makes the workers of the next pass stop before taking a "
+                      "record, and a pass that reads nothing is taken for the end of the input (the rest of the file is "
+                      "never counted)" % (cname(c).split("::")[-1], show(t)), line_of(c))
+    if n < 3:
+        ctx.fail("C07.C", "count_chunk:counter_per_pass:floor", "fewer than 3 atomic operations in the worker (found %d)" % n,
+                 line_of(clo))
+
+
 def chunk_rule(ctx, fn, fc):
+    counters_rule(ctx, fc)
     ws = self_field_writes(fn, "chunks")
     calls = fn.calls_to(CHUNK)
     ok = len(ws) == 1 and len(calls) == 1 and ws[0][1] == mk_bin("+", SF("chunks"), L(1))
